@@ -177,6 +177,78 @@ func c17Layouts(tier string) []c17Layout {
 		c17Layout{Name: "S1[B1:stale] tagged artifacts", Fallback: map[string][]c17Entry{"S1": {{"B1", "stale-size"}}}, TagArt: true},
 		c17Layout{Name: "no fallback tags", Fallback: map[string][]c17Entry{}},
 	)
+	// generated: every assignment "absent or listed in mode m" of the artifacts B1, B2, B3 (B3 names S2) to a fallback tag
+	arts := []string{"B1", "B2", "B3"}
+	combos := func(ms []string) [][]c17Entry {
+		var res [][]c17Entry
+		var rec func(i int, cur []c17Entry)
+		rec = func(i int, cur []c17Entry) {
+			if i == len(arts) {
+				res = append(res, append([]c17Entry{}, cur...))
+				return
+			}
+			rec(i+1, cur)
+			for _, m := range ms {
+				rec(i+1, append(cur, c17Entry{arts[i], m}))
+			}
+		}
+		rec(0, nil)
+		return res
+	}
+	label := func(es []c17Entry) string {
+		var p []string
+		for _, e := range es {
+			p = append(p, e.Art+":"+e.Mode)
+		}
+		return strings.Join(p, ",")
+	}
+	// one fallback tag (S1), all four modes, with and without a missing manifest, with and without a coexisting
+	// converted response, artifacts tagged or not
+	convs := [][]string{nil}
+	tagArts := []bool{false}
+	if tier == "thorough" {
+		convs = [][]string{nil, {"B1"}, {"B2"}, {"B1", "B2"}}
+		tagArts = []bool{false, true}
+	}
+	for _, es := range combos(modes) {
+		for _, miss := range []bool{false, true} {
+			for _, cv := range convs {
+				for _, ta := range tagArts {
+					if len(es) == 0 && !miss {
+						continue
+					}
+					ents := append([]c17Entry{}, es...)
+					nm := "gen S1[" + label(es)
+					if miss {
+						ents = append(ents, c17Entry{"Bmiss", "missing"})
+						nm += ",Bmiss:missing"
+					}
+					nm += "]"
+					if len(cv) > 0 {
+						nm += " + converted[" + strings.Join(cv, ",") + "]"
+					}
+					if ta {
+						nm += " tagged artifacts"
+					}
+					out = append(out, c17Layout{Name: nm, Fallback: map[string][]c17Entry{"S1": ents}, Converted: cv, TagArt: ta})
+				}
+			}
+		}
+	}
+	// two fallback tags (S1 and S2), every pair of assignments; quick: modes accurate / stale-size only
+	pm := []string{"accurate", "stale-size"}
+	if tier == "thorough" {
+		pm = modes
+	}
+	cs := combos(pm)
+	for _, e1 := range cs {
+		for _, e2 := range cs {
+			if len(e1) == 0 || len(e2) == 0 {
+				continue
+			}
+			out = append(out, c17Layout{Name: "gen S1[" + label(e1) + "] S2[" + label(e2) + "]", Fallback: map[string][]c17Entry{"S1": e1, "S2": e2}})
+		}
+	}
 	return out
 }
 
@@ -404,7 +476,7 @@ func init() {
 	})
 	h.Checks["C17"] = func(tier string) int {
 		rep := h.NewReport("C17", tier, "fault_enumeration")
-		rep.Rule = "every layout of a generated family (fallback indexes for sha256 and sha512 subjects listing subsets of artifacts with accurate / stale-size / stale-type / stale-annotation descriptors, missing manifests, artifacts of another subject, two tags adoptable for one subject, a coexisting converted response, tagged and untagged artifacts) is written to disk by the harness and opened with a writable directory store and with a memory store over the directory; " +
+		rep.Rule = "every layout of a generated family (fallback indexes for sha256 and sha512 subjects listing subsets of artifacts with accurate / stale-size / stale-type / stale-annotation descriptors, missing manifests, artifacts of another subject, two tags adoptable for one subject, a coexisting converted response, tagged and untagged artifacts; plus, generated exhaustively: every assignment 'absent or listed in mode m' of three artifacts (one of them naming the other subject) to one fallback tag x missing manifest [x coexisting converted response x tagged artifacts in the thorough tier], and every pair of such assignments to two fallback tags (two modes quick, four modes thorough)) is written to disk by the harness and opened with a writable directory store and with a memory store over the directory; " +
 			"referrers(S) must be exactly the listed artifacts that exist and name S, all other tags / manifests / blobs stay served, index.json is marked converted, a second round and a reopen give the same result, the first access terminates (no enabled thread = dead-lock), and for every mutating filesystem call of the conversion a crash before it followed by a reopen gives the uninterrupted result; non-trivial = crash images + conversions executed"
 		rep.Assume = []string{"whether the fallback tag itself stays listed is left open", "process-crash model"}
 		lays := c17Layouts(tier)
